@@ -388,8 +388,8 @@ def get_confirmed_edges_for_node(graph: nx.MultiDiGraph, node: DSGNode, include_
     # Loop over outgoing edges
     confirmed_edges = set()
     for out_edge in iter_out_edges(graph, node):
-        if get_edge_type(out_edge) == EdgeType.INCOMPATIBILITY:
-            continue
+        if get_edge_type(out_edge) in (EdgeType.INCOMPATIBILITY, EdgeType.EXCLUDES):
+            continue  # These edges do not confirm their target nodes
 
         # Stop at choice nodes
         if isinstance(out_edge[1], ChoiceNode):
